@@ -98,9 +98,13 @@ class NCfg:
         self.kl = None
         self.lr = Fraction(1, 10)
         self.damping = rng.choice([Fraction(1, 4), Fraction(1, 10)])
+        if rng.random() < 0.3:
+            # damping schedule (callable of the step count), changing between inverse updates too
+            self.damping = rng.choice([[Fraction(1, 4), Fraction(1, 8), Fraction(1, 2), Fraction(1, 16)],
+                                       [Fraction(1, 10), Fraction(1, 2), Fraction(1, 4)]])
         self.decay = rng.choice([Fraction(1, 2), Fraction(3, 4)])
         self.fus = rng.choice([1, 1, 2])
-        self.ius = rng.choice([1, 1, 2])
+        self.ius = rng.choice([1, 1, 2, 3])
         self.ops = ['f1', 's']
         self.ckpt_dir = None
         self.inv32 = False                           # second-order data in float32, factors in float64
@@ -129,9 +133,31 @@ class NCfg:
         return self
 
     def describe(self):
-        d = {k: (str(v) if isinstance(v, Fraction) else v) for k, v in self.__dict__.items()}
+        d = {k: (str(v) if isinstance(v, Fraction) else [str(x) for x in v] if isinstance(v, list) and v and isinstance(v[0], Fraction) else v)
+             for k, v in self.__dict__.items()}
         d['lead'] = list(self.lead)
         return d
+
+
+def peek(x):
+    """value of a factor slot (tensor or future) without touching the slot"""
+    if isinstance(x, (torch._C.Future, torch.futures.Future)):
+        w = simdist._tls.world
+        me = simdist._tls.rank
+        was = w.muted[me]
+        w.muted[me] = True
+        try:
+            return x.wait()
+        finally:
+            w.muted[me] = was
+    return x
+
+
+def damping_arg(v):
+    if isinstance(v, list):
+        tbl = [float(x) for x in v]
+        return lambda step: tbl[min(step, len(tbl) - 1)]
+    return float(v)
 
 
 def full_layers(cfg, stage):
@@ -209,7 +235,7 @@ def run_real(cfg, sched_seed=0):
             with warnings.catch_warnings():
                 warnings.simplefilter('ignore')
                 return GPTNeoXKFACPreconditioner(
-                    model, factor_update_steps=cfg.fus, inv_update_steps=cfg.ius, damping=float(cfg.damping),
+                    model, factor_update_steps=cfg.fus, inv_update_steps=cfg.ius, damping=damping_arg(cfg.damping),
                     factor_decay=float(cfg.decay), kl_clip=(None if cfg.kl is None else float(cfg.kl)), lr=float(cfg.lr),
                     allreduce_bucket_cap_mb=cfg.cap_mb, compute_eigenvalue_outer_product=cfg.prediv,
                     accumulation_steps=cfg.accum, update_factors_in_hook=cfg.hook,
@@ -250,7 +276,9 @@ def run_real(cfg, sched_seed=0):
                 rec['factors'] = []
                 for (n, l), iw in zip(p._layers.values(), out['inv']):
                     if iw == rank:
-                        rec['factors'].append((l.a_factor.clone(), l.g_factor.clone()))
+                        # (read without resolving: the property getter would replace a completed future by its tensor and so
+                        # change what the layer holds at the next checkpoint)
+                        rec['factors'].append((peek(l._a_factor).clone(), peek(l._g_factor).clone()))
                     else:
                         rec['factors'].append(None)
                 model.zero_grad()
@@ -350,7 +378,9 @@ def reference(cfg, loads=None):
                   for k, w, b in full_layers(cfg, stage)]
         nl = len(layers)
         rc = C()
-        rc.method, rc.prediv, rc.hook, rc.accum = 'eigen', cfg.prediv, cfg.hook, cfg.accum
+        # (GPTNeoXKFACPreconditioner stores compute_eigenvalue_outer_product but never forwards it to its layers: they always
+        # divide by outer(dg, da) + the damping of the current step, which is what the unsharded reference does here)
+        rc.method, rc.prediv, rc.hook, rc.accum = 'eigen', False, cfg.hook, cfg.accum
         rc.hyper = {'factor_update_steps': cfg.fus, 'inv_update_steps': cfg.ius, 'damping': cfg.damping,
                     'factor_decay': cfg.decay, 'kl_clip': cfg.kl, 'lr': cfg.lr}
         ref = ref_kfac.Ref(rc, [None] * nl)
